@@ -152,6 +152,44 @@ func ruleCmpDir(p *Prog, r *Result) {
 			if nTrue == 0 {
 				bad = "Less never returns true"
 			}
+			// ties move on to the next order field: inside the loop over the fields, `false` is returned only
+			// where the comparison is positive (a return under compare >= 0 stops at the first field)
+			for _, L := range naturalLoops(fn) {
+				if !L.Body[cmpCall.Block()] {
+					continue
+				}
+				for _, b := range fn.Blocks {
+					ret := retOf(b)
+					if ret == nil {
+						continue
+					}
+					bv, isB := constBool(retVal(ret, 0))
+					if !isB || bv {
+						continue
+					}
+					// a `return false` reached from inside the loop other than through the loop's normal exit
+					fromLoop := false
+					for _, pr := range b.Preds {
+						if L.Body[pr] && pr != L.Header {
+							fromLoop = true
+						}
+					}
+					if !fromLoop {
+						continue
+					}
+					strict := false
+					for _, a := range dominatingAtoms(b) {
+						if a.X == ssa.Value(cmpCall) {
+							if c, ok := constInt(a.Y); ok && ((a.Op == token.GTR && c == 0) || (a.Op == token.GEQ && c == 1) || (a.Op == token.NEQ && c == 0)) {
+								strict = true
+							}
+						}
+					}
+					if !strict {
+						bad = "Less answers `false` on a tie of one order field instead of moving on to the next field (only the first ORDER BY field would count)"
+					}
+				}
+			}
 			// operand roles: arg2 from the receiver's columns, arg3 from the parameter's columns
 			recv, other := ssa.Value(fn.Params[0]), ssa.Value(fn.Params[1])
 			lFrom := derivesFrom(cmpCall.Call.Args[2], func(v ssa.Value) bool { return v == recv }) && !derivesFrom(cmpCall.Call.Args[2], func(v ssa.Value) bool { return v == other })
